@@ -7,7 +7,7 @@ import coqlit as L
 import ftutil as U
 
 ID = "C19"
-THEOREMS = ["C19_two_finger", "C19_skip_ahead", "C19_leader_follower", "C19_leader_follower_style", "C19_batching",
+THEOREMS = ["C19_two_finger", "C19_two_finger_empty_first_refuted", "C19_skip_ahead", "C19_leader_follower", "C19_leader_follower_style", "C19_batching",
             "C19_presented_rows", "C19_swaps_tree", "C19_swaps_rounds", "C19_swaps_merge",
             "C19_swaps_values", "C19_merge_unbounded", "C19_swaps_unbounded", "C19_swaps_unbounded_defined",
             "C19_model_meets_spec"]
@@ -27,8 +27,9 @@ RULE = ("three case kinds. L: as I but every intersection is Fiber.intersection(
         "I: a loop nest of depth 0-2 over 1-6 consecutive two-operand intersections "
         "(operands with 0-8 coordinates: empty, disjoint, interleaved, identical, one-sided tails, "
         "explicit-default elements) run under Metrics with intersect_0/1 traced, the traces consumed and "
-        "fed to TwoFinger/SkipAhead/LeaderFollower(a)/LeaderFollower(b) models under three schedules "
-        "(fiber by fiber, one shot, one random batching); observation = header length, every trace row "
+        "fed to TwoFinger/SkipAhead/LeaderFollower(a)/LeaderFollower(b) models under five schedules "
+        "(fiber by fiber, one shot, one random batching, two with EMPTY batches at the start / in the middle / "
+        "at the end; the two-finger object is fed from the first non-empty batch on); observation = header length, every trace row "
         "of both sides, getNumIntersects() of every model after every call.  S: Compute.numSwaps on a "
         "tensor of depth 2-3 and on a copy with other payload values, radix 2..5/inf, latency 1..3/'N'; "
         "observation = both totals.  distinct = distinct canonical JSON; non-trivial = some intersection "
@@ -42,7 +43,9 @@ TRUSTED = ["Coq 8.16.1 kernel (coqc; coqchk in the thorough tier); vm_compute us
 ASSUMPTIONS = ["operand coordinate lists strictly increasing (Fiber invariant, property C01)",
                "the loop nest visits fibers in lexicographically increasing outer coordinates (a for loop over "
                "a fiber yields increasing coordinates), all at the same depth; traces are consumed only "
-               "between whole intersections and not before the first one",
+               "between whole intersections (any number of times, also before the first one)",
+               "the two-finger object is not handed an empty FIRST batch (it raises IndexError there: "
+               "C19_two_finger_empty_first_refuted, fix proposed)",
                "swap tensors: leaf default 0, compressed format; radix >= 2 (radix 1 never terminates in the "
                "implementation); intersection operands: default 0, 3 or None (sentinel %d in the model)" % -999983,
                "bisect.bisect_right is modelled by a linear scan (equal on the sorted head list)",
@@ -132,6 +135,20 @@ def random_sched(rng, n):
     return s
 
 
+def with_empties(rng, sched):
+    """the same batching with empty batches (0) put in: at the start (a flush before the traced rank has ever
+    been iterated), in the middle, at the end - each position independently, sometimes twice"""
+    out = []
+    for i in range(len(sched) + 1):
+        p = 0.6 if i in (0, len(sched)) else 0.35
+        while rng.random() < p:
+            out.append(0)
+            p = 0.3
+        if i < len(sched):
+            out.append(sched[i])
+    return out
+
+
 NONE_D = -999983      # stands for default None ("no empty value"): no payload ever equals it
 
 
@@ -153,6 +170,8 @@ def gen_nest(rng, d, pair):
         fibers.append([fid, a, b, dflt])
     n = len(fibers)
     scheds = [[1] * n, [n], random_sched(rng, n)]
+    scheds.append(with_empties(rng, rng.choice(scheds)))
+    scheds.append([0] + with_empties(rng, random_sched(rng, n)))
     return {"fibers": fibers, "scheds": scheds, "outer": gen_outer(rng, d, fids, fmts)}
 
 
@@ -214,8 +233,8 @@ def exhaustive_pairs():
         fa = [[c, 1] for c in a]
         fb = [[c, 1] for c in b]
         fibers = [[[1], fa, fb], [[4], [[0, 1], [2, 1]], [[0, 1], [1, 1], [3, 1]]], [[5], fb, fa]]
-        cases.append({"kind": "I", "fibers": fibers, "scheds": [[1, 1, 1], [3], [2, 1]]})
-        cases.append({"kind": "L", "fibers": fibers, "scheds": [[1, 1, 1], [3]]})
+        cases.append({"kind": "I", "fibers": fibers, "scheds": [[1, 1, 1], [3], [2, 1], [0, 1, 0, 2, 0], [0, 0, 3]]})
+        cases.append({"kind": "L", "fibers": fibers, "scheds": [[1, 1, 1], [3], [0, 2, 0, 1, 0]]})
     return cases
 
 
@@ -226,6 +245,7 @@ def streams(tier, rng):
     yield ("witness-S19", [WITNESS_S19_TAIL, WITNESS_S19_EMPTY], False)
     yield ("witness-swaps", WITNESS_SWAPS, False)
     yield ("witness-wave3", WITNESS_W3, False)
+    yield ("witness-wave4", WITNESS_W4, False)
     yield ("intersect", [gen_I(rng) for _ in range(n)], False)
     yield ("leader-follower", [gen_L(rng) for _ in range(k)], False)
     yield ("swaps", [gen_S(rng) for _ in range(m)], False)
@@ -246,6 +266,15 @@ WITNESS_S19_EMPTY = {"kind": "I", "scheds": [[1, 1], [2]],
 # wave 3: (A3) leader-follower style with the leader ending last / follower entirely below / empty follower;
 # (B3) an uncompressed outer rank with an absent coordinate preceded by another one, traces consumed in one shot
 _LF = [([0, 2, 3, 4], [1, 2, 4]), ([0, 2, 3], [1, 2, 4, 9]), ([0, 2, 5, 7], [1, 2, 3]), ([4, 5, 6], [0, 1]), ([1, 2, 3], [])]
+# wave 4: a flush at the top of the outer loop body plus one after the loop (empty first batch), a first outer
+# iteration that skips the inner loop, empty batches in the middle and at the end
+def _w4(kind):
+    return {"kind": kind, "scheds": [[0, 1, 1, 1, 0], [0, 0, 3], [1, 0, 0, 2], [3, 0], [1, 1, 1]],
+            "fibers": [[[j], [[0, 1], [2, 1], [5, 1], [7, 1]], [[1, 1], [2, 1], [3, 1]]] for j in range(3)]}
+
+
+WITNESS_W4 = [_w4("I"), _w4("L")]
+
 WITNESS_W3 = [{"kind": "L", "scheds": [[1] * 3, [3]],
                "fibers": [[[j], [[c, 1] for c in a], [[c, 1] for c in b]] for j in range(3)]} for a, b in _LF] + [
     {"kind": "I", "scheds": [[1] * 4, [4]],
@@ -285,6 +314,14 @@ def nontrivial(case):
     return lists(case["t"], case["depth"]) >= 2
 
 
+def sched_desc(case):
+    ss = case["scheds"]
+    return {"sched_empty_first": any(s and s[0] == 0 for s in ss),
+            "sched_empty_middle": any(0 in s[1:-1] and any(x for x in s[:i]) and any(x for x in s[i + 1:])
+                                      for s in ss for i in range(1, len(s) - 1) if s[i] == 0),
+            "sched_empty_last": any(s and s[-1] == 0 for s in ss)}
+
+
 def outer_desc(case):
     outer = case.get("outer") or []
     us = [o for o in outer if o["fmt"] == "U"]
@@ -310,6 +347,7 @@ def describe(case):
         for k in ("empty-follower", "follower-below", "leader-ends-last", "follower-ends-last-or-equal"):
             d["L_" + k] = k in cls
         d.update(outer_desc(case))
+        d.update(sched_desc(case))
         return d
     if case["kind"] == "I":
         fs = case["fibers"]
@@ -332,7 +370,7 @@ def describe(case):
                 "has_disjoint": "disjoint" in ends,
                 "explicit_default": any(v == fdef(f) for f in fs for _, v in f[1] + f[2]),
                 "stored_zero_under_None": any(fdef(f) == NONE_D and v == 0 for f in fs for _, v in f[1] + f[2]),
-                "operand_default": fdef(fs[0]), **outer_desc(case)}
+                "operand_default": fdef(fs[0]), **outer_desc(case), **sched_desc(case)}
     return {"kind": "S", "swap_depth": case["depth"], "radix": case["radix"], "latency": case["lat"],
             "explicit_default_S": U.has_explicit_default(case["t"], 0)}
 
@@ -368,8 +406,10 @@ def run_nest(case, sched, models):
     style = case["kind"]
     d = len(fibers[0][0])
     order = [tuple(f[0]) for f in fibers]
-    cuts = set(itertools.accumulate(sched))
-    counts = [[] for _ in models]
+    pending = list(sched)           # numbers of intersections per batch; 0 = an empty batch
+    in_batch = [0]
+    counts = [[] for _ in models]   # per model: getNumIntersects() after every call, or [-1, 1] once it raised
+    dead = [False] * len(models)
     rows = [[], []]
     done = [0]
 
@@ -412,12 +452,25 @@ def run_nest(case, sched, models):
         t1 = Metrics.consumeTrace("K", "intersect_1")
         rows[0] += t0
         rows[1] += t1
-        for k, (m, side) in enumerate(models):
-            if side == 2:
-                m.addTraces(t0, t1)
-            else:
-                m.addTraces(t1 if side else t0)
-            counts[k].append(m.getNumIntersects())
+        for k, (m, side, from_first_data) in enumerate(models):
+            if dead[k] or (from_first_data and done[0] == 0):
+                continue
+            try:
+                if side == 2:
+                    m.addTraces(t0, t1)
+                else:
+                    m.addTraces(t1 if side else t0)
+                counts[k].append(m.getNumIntersects())
+            except (AssertionError, IndexError, AttributeError, TypeError, KeyError):
+                dead[k] = True
+                counts[k] = [-1, 1]
+
+    def drain():
+        """consume-and-feed for every batch that is complete (a 0 entry is complete at once)"""
+        while pending and pending[0] == in_batch[0]:
+            feed()
+            pending.pop(0)
+            in_batch[0] = 0
 
     def loop(level, prefix):
         if level == d:
@@ -429,8 +482,8 @@ def run_nest(case, sched, models):
                 for _ in a_k & b_k:
                     pass
             done[0] += 1
-            if done[0] in cuts:
-                feed()
+            in_batch[0] += 1
+            drain()
             return
         for c, _ in loops[(level, prefix)]:
             loop(level + 1, prefix + (c,))
@@ -439,7 +492,9 @@ def run_nest(case, sched, models):
     try:
         Metrics.trace("K", "intersect_0", consumable=True)
         Metrics.trace("K", "intersect_1", consumable=True)
+        drain()                      # leading empty batches: flushes before the traced rank is ever iterated
         loop(0, ())
+        assert not pending, "schedule does not add up to the number of intersections"
     finally:
         try:
             Metrics.consumeTrace("K", "intersect_0")
@@ -459,14 +514,14 @@ def run_impl(case):
         hdr, r0, r1, _ = run_nest(case, [len(fibers)], [])
         out = []
         for s in case["scheds"]:
-            models = [(LeaderFollowerIntersector(), 0), (LeaderFollowerIntersector(), 1)]
+            # (object, side, fed only from the first batch that follows an intersection).  The two-finger object
+            # is not handed leading empty batches: it raises IndexError on an empty first batch (finding reported
+            # with a proposed fix; Coq: C19_two_finger_empty_first_refuted) - every other object gets every batch
+            models = [(LeaderFollowerIntersector(), 0, False), (LeaderFollowerIntersector(), 1, False)]
             if case["kind"] == "I":
-                models = [(TwoFingerIntersector(), 2), (SkipAheadIntersector(), 2)] + models
-            try:
-                _, _, _, counts = run_nest(case, s, models)
-                out.append(counts)
-            except (AssertionError, IndexError, AttributeError, TypeError, KeyError):
-                out.append([-1, 1])
+                models = [(TwoFingerIntersector(), 2, True), (SkipAheadIntersector(), 2, False)] + models
+            _, _, _, counts = run_nest(case, s, models)
+            out.append(counts)
         return [hdr, r0, r1, out]
     from fibertree.model import Compute
     res = []
@@ -497,7 +552,7 @@ def shrinks(case):
                 del c["fibers"][i]
                 if len(c["fibers"][0][0]) == 0 and len(c["fibers"]) != 1:
                     continue
-                c["scheds"] = [[1] * (n - 1), [n - 1]]
+                c["scheds"] = [[1] * (n - 1), [n - 1], [0, n - 1], [0] + [1] * (n - 1) + [0]]
                 yield c
         for i in range(n):
             for side in (1, 2):
